@@ -19,14 +19,25 @@
       with all start bits computed at run time;
     * member_text_agrees — per member, the TSDL text states the size, alignment and signedness the
       serialiser uses, and the array lengths outermost first.
-  `decode_serialize_partial` (DESIGN.md): the composition to whole records/packets (`decodePacket
-  ∘ serRecord = id` on values) is NOT proved yet; it is evaluated on every run by three ties: the
-  real operation trees equal the model's, the parsed real metadata equals `tsdlStruct`, and real
-  packets decoded by the Python reader (from the real metadata) and by the Lean reader (from
-  `tsdlStruct`) agree with each other and with the traced arguments.
+    * record_roundtrip — **whole root structures**: for every structure of user members (scalars, strings,
+      static arrays of any nesting and length, dynamic arrays), every argument list, byte order, starting
+      position and buffer, if every store is inside the buffer then reading the buffer back *by the metadata*
+      (`readStruct (tsdlStruct S)`) returns, member by member, the traced values reduced to their fields, and
+      stops where the tracer stopped; nothing below the starting position is modified (Proofs/RoundTrip.lean).
+      Hypotheses, all evaluated on a concrete record below: scalars well formed, string arguments without NUL,
+      `8·L + 2·align ≤ 2^32` (no `uint32_t` wrap: finding F11's territory), the memcpy fast path only on a
+      little-endian host, and each sequence's length member decodes to the count the tracer used
+      (`LenScopeOK`; `lenScopeOKb` is its executable form).
+  Still partial (`decode_serialize_partial`): the composition to whole *packets* — headers and contexts written
+  through the specialised templates (magic, sizes written back at closing, timestamps), several records, the
+  content-size bound — is not proved; it is evaluated on every run by three ties: the real operation trees equal
+  the model's, the parsed real metadata equals `tsdlStruct`, and real packets decoded by the Python reader (from
+  the real metadata) and by the Lean reader (from `tsdlStruct`) agree with each other and with the traced
+  arguments.
 -/
 import BVM.Proofs.Read
 import BVM.Proofs.Oib
+import BVM.Proofs.RoundTrip
 namespace BVM
 
 theorem scalar_roundtrip (bo : ByteOrder) (vt : CInt) (buf : Buf) (base start len : Nat) (v : Int)
@@ -102,6 +113,32 @@ theorem static_start_bits_are_dynamic (env : SerEnv) (pfx : String) (args : Args
     serRoot env pfx (buildRoot spec S) args s = serRoot env pfx (buildRoot spec S).erase args s :=
   buildRoot_transparent env pfx args spec S hS hms s
 
+/-- **record-level round trip** (`decode ∘ serialise = id` on one root structure).  Let `S` be a root structure
+    (payload, specific/common context, …: no specialised template, no UUID member) whose alignment is a power of
+    two and whose members' scalars are well formed (`MemberOK`: sizes 1–64, alignments powers of two, string
+    arguments are C strings); let the tracer serialise `args` with the operation tree `_OpBuilder` builds, from any
+    state `s` whose position is inside a buffer of `L` bytes (`8·L + 2·align ≤ 2^32`), with every store inside the
+    buffer (`oob = false`: what C02 is about), in either byte order, the memcpy fast path being taken only on a
+    little-endian host (`Frame.fast`).  Then a CTF 1.8 reader that follows the *metadata* (`tsdlStruct S`: sizes,
+    alignments, byte order, array lengths, the sequence length read from the earlier member it names) from the
+    same starting position returns, member by member, exactly the traced values reduced to their fields
+    (`decMember`), and ends where the tracer ended; the bits below the starting position are untouched (so records
+    and packet fields written earlier still read back). -/
+theorem record_roundtrip (env : SerEnv) (pfx : String) (args : Args) (S : Struct) (s : SerSt) (L : Nat)
+    (F : Frame env L S.align) (hS : ∃ j, S.align = 2 ^ j) (hms : ∀ m ∈ S.members, MemberOK S.align pfx args m)
+    (hsc : LenScopeOK pfx args S.members []) (hlen : s.buf.length = L) (hat : s.at_ ≤ 8 * L)
+    (h : (serRoot env pfx (buildRoot specNone S) args s).oob = false) :
+    readStruct env.bo (serRoot env pfx (buildRoot specNone S) args s).buf (8 * L) (tsdlStruct S) s.at_ =
+      some (S.members.map (fun m => (m.name, decMember pfx args m)), (serRoot env pfx (buildRoot specNone S) args s).at_) ∧
+    PrefixEq env.bo s.at_ s.buf (serRoot env pfx (buildRoot specNone S) args s).buf ∧
+    s.at_ ≤ (serRoot env pfx (buildRoot specNone S) args s).at_ :=
+  struct_roundtrip env pfx args S s L F hS hms hsc hlen hat h
+
+/-- the side conditions on a member follow from the well-formedness the front end guarantees -/
+theorem member_side_conditions (S : Struct) (hS : ∃ j, S.align = 2 ^ j) (pfx : String) (args : Args) (m : Member)
+    (hm : m ∈ S.members) (hnu : m.ft ≠ .uuid) (hwf : m.ft.leaf.WF) (hl : ∀ l ∈ args.get (pfx ++ "_" ++ m.name), LeafOK l) :
+    MemberOK S.align pfx args m := memberOK_of S hS pfx args m hm hnu hwf hl
+
 /-! Non-vacuity -/
 /-- a structure with a 5-bit element aligned on 8 in a dynamic array followed by a bit-packed member (the shape
     on which a builder that keeps the element's offset after the loop goes wrong when the array is empty) meets
@@ -126,6 +163,35 @@ example : (buildRoot specNone c01S).members =
 example : readBits .be (bfWrite .be ⟨16, true⟩ [0, 0, 0, 0] 1 3 13 (-2)) (8 * 1 + 3) 13 = 8190 := by decide
 example : signExtend true 13 8190 = -2 := by decide
 
+/-- a record with a sequence of 5-bit elements aligned on 8, bit-packed members, a signed value and a string,
+    serialised big endian from bit 3 of a 16-byte buffer of ones: every hypothesis of `record_roundtrip` holds … -/
+def c01R : Struct := ⟨1, [⟨"n", .el (.sc (.int false 8 8))⟩, ⟨"a", .darr "n" (.sc (.int false 5 8))⟩,
+                           ⟨"t", .el (.sc (.int true 4 1))⟩, ⟨"u", .el (.sarr 2 (.sc (.int false 3 2)))⟩,
+                           ⟨"s", .el (.sc .str)⟩]⟩
+def c01Env : SerEnv := ⟨.be, false, [], 0, 0, 0, 0, 0⟩
+def c01Args : Args := [("p_n", [.num 2]), ("p_a", [.num 5, .num 33]), ("p_t", [.num (-3)]), ("p_u", [.num 6, .num 9]),
+                       ("p_s", [.str [104, 105]])]
+def c01St : SerSt := ⟨List.replicate 16 255, 3, [], [], false, []⟩
+
+example : Frame c01Env 16 c01R.align := ⟨by simp [c01Env], by decide, by decide⟩
+example : (serRoot c01Env "p" (buildRoot specNone c01R) c01Args c01St).oob = false := by decide +kernel
+example : LenScopeOK "p" c01Args c01R.members [] := lenScopeOKb_sound _ _ _ _ (by decide +kernel)
+example : ∀ m ∈ c01R.members, MemberOK c01R.align "p" c01Args m := by
+  intro m hm
+  have hS : ∃ j, c01R.align = 2 ^ j := ⟨3, by decide⟩
+  have hm' := hm
+  simp only [c01R, List.mem_cons, List.mem_nil_iff, or_false] at hm'
+  rcases hm' with rfl | rfl | rfl | rfl | rfl
+  · exact memberOK_of c01R hS _ _ _ hm (by simp) ⟨by decide, by decide, 3, rfl⟩ (by decide +kernel)
+  · exact memberOK_of c01R hS _ _ _ hm (by simp) ⟨by decide, by decide, 3, rfl⟩ (by decide +kernel)
+  · exact memberOK_of c01R hS _ _ _ hm (by simp) ⟨by decide, by decide, 0, rfl⟩ (by decide +kernel)
+  · exact memberOK_of c01R hS _ _ _ hm (by simp) ⟨by decide, by decide, 1, rfl⟩ (by decide +kernel)
+  · exact memberOK_of c01R hS _ _ _ hm (by simp) trivial (by decide +kernel)
+/-- … and the reader returns 2; 5, 33 mod 32 = 1; −3; 6, 9 mod 8 = 1; "hi" -/
+example : readStruct .be (serRoot c01Env "p" (buildRoot specNone c01R) c01Args c01St).buf 128 (tsdlStruct c01R) 3 =
+    some ([("n", [.num 2]), ("a", [.num 5, .num 1]), ("t", [.num (-3)]), ("u", [.num 6, .num 1]), ("s", [.str [104, 105]])],
+          (serRoot c01Env "p" (buildRoot specNone c01R) c01Args c01St).at_) := by decide +kernel
+
 #print axioms scalar_roundtrip
 #print axioms signed_reduction
 #print axioms memcpy_roundtrip
@@ -139,4 +205,6 @@ example : signExtend true 13 8190 = -2 := by decide
 #print axioms carrier_holds_field
 #print axioms lengths_outermost_first
 #print axioms static_start_bits_are_dynamic
+#print axioms record_roundtrip
+#print axioms member_side_conditions
 end BVM
